@@ -440,3 +440,77 @@ alignment_to_interval = Contract("C16.alignment_to_interval", target=lambda: ("a
                                  canaries=[("strand bit 0x20", "np.uint16(16)", "np.uint16(32)"), ("strands swapped", 'ord("-"), ord("+")', 'ord("+"), ord("-")'),
                                            ("stop without length", "alignment.position+length,", "alignment.position,")])
 CONTRACTS += [count_reference_length, alignment_to_interval]
+
+
+# --- BamIntervalBuffer.get_field_by_number: the Bed6 view of a BAM chunk (the second route to reference intervals) -----------------------------
+# The record extractor is abstract (its getters are proved above): get_field_by_number(j) returns the j-th BAM field.  Column 0 = reference name,
+# 1 = position, 2 = position + reference length of the record's own CIGAR (operations, lengths - in that order), 3 = read name, 4 = mapq,
+# 5 = '-' iff flag bit 0x10.
+def _BIB():
+    from bionumpy.io.bam import BamIntervalBuffer
+    return BamIntervalBuffer
+
+
+class _Extractor:
+    def __init__(self, st):
+        self.st = st
+
+    def getattr(self, ip, name, lineno):
+        if name != "get_field_by_number":
+            raise Unsupported("extractor attribute %s" % name)
+        ex = self
+
+        class _G:
+            def sym_call(self_, ip, args, kwargs, lineno):
+                return ex.st.fields[conc(args[0])]
+        return _G()
+
+
+def _mk_bib(col):
+    def setup(ctx):
+        st = St()
+        st.n = z3.Int("n_alignments")
+        st.flag, st.pos, st.rl = [z3.Function(x, z3.IntSort(), z3.IntSort()) for x in ("flag", "position", "reflen")]
+        st.fields = {0: Opaque("reference names"), 1: Opaque("read names"), 2: SArr.fresh(st.n, lambda i: st.flag(I(i))), 3: SArr.fresh(st.n, lambda i: st.pos(I(i))),
+                     4: Opaque("mapq"), 5: Opaque("cigar operations"), 6: Opaque("cigar lengths"), 7: Opaque("sequence"), 8: Opaque("quality")}
+        st.crl_args = None
+        st.selfv = SRec(_BIB(), _buffer_extractor=_Extractor(st))
+        st.args = [col]
+        _hb["st"] = st
+        return st
+
+    def crl(ip, args, kwargs, lineno):
+        st = _hb["st"]
+        st.crl_args = list(args)
+        return SArr.fresh(st.n, lambda i: st.rl(I(i)))
+
+    def ens(ctx, st, ret):
+        def minus(i):
+            q, _ = M._divmod_noassert(st.flag(I(i)), 16)
+            return M._divmod_noassert(q, 2)[1] == 1
+        if col == 0:
+            return [("the.reference.name.column", ret is st.fields[0])]
+        if col == 1:
+            return [("start.has.one.entry.per.record", I(ret.length) == st.n),
+                    ("start.is.the.position.values", Forall(lambda i: Implies(in_range(i, st.n), ret.at(i) == st.pos(i))))]
+        if col == 2:
+            return [("reference.length.of.the.record's.own.cigar (operations, lengths)", st.crl_args is not None and len(st.crl_args) == 2 and st.crl_args[0] is st.fields[5] and st.crl_args[1] is st.fields[6]),
+                    ("stop.is.position.plus.reference.length", Forall(lambda i: Implies(in_range(i, st.n), ret.at(i) == st.pos(i) + st.rl(i))))]
+        if col == 3:
+            return [("the.read.name.column", ret is st.fields[1])]
+        if col == 4:
+            return [("the.mapq.column", ret is st.fields[4])]
+        return [("strand.from.flag.0x10", Forall(lambda i: Implies(in_range(i, st.n), ret.at2(i, 0) == Ite(minus(i), ord("-"), ord("+")))))]
+
+    can = {2: [("stop without the reference length", "get_field_by_number(3) + count_reference_length(", "get_field_by_number(3) + 0 * count_reference_length("),
+               ("lengths and operations swapped", "for i in (5, 6)", "for i in (6, 5)")],
+           1: [("start from the flag", "lambda: self._buffer_extractor.get_field_by_number(3),", "lambda: self._buffer_extractor.get_field_by_number(2),")],
+           5: [("strand bit 0x20", "np.uint16(16)", "np.uint16(32)")]}.get(col, [])
+    return Contract("C16.BamIntervalBuffer.get_field_by_number[%d]" % col, target=lambda: _BIB().get_field_by_number, setup=setup,
+                    requires=lambda ctx, st: [st.n >= 0, Forall(lambda i: And(st.flag(i) >= 0, st.flag(i) < 65536), triggers=[st.flag], name="uint16 flags")],
+                    ensures=ens, callees={"bionumpy.alignments.cigar.count_reference_length": crl}, canaries=can)
+
+
+_hb = {}
+from pyvc.core import Unsupported     # noqa: E402
+CONTRACTS += [_mk_bib(c) for c in range(6)]
